@@ -410,7 +410,7 @@ class Array(metaclass=MetaArray):
                         get_item(value, idx)
                     )
                     offsets[idx] = offset
-                    offset += extra[idx].size
+                    offset += _to_slot_size(extra[idx].size)
                 size = _to_slot_size(offset)
                 info.offsets = offsets
                 info.extra = extra
